@@ -158,6 +158,39 @@ def check_product(case):
         if out.true("timesQsparse(shared real-part object):shape", C2.shape == (m, n, 4), f"{C2.shape}"):
             out.le("timesQsparse(shared real-part object):second call answers for ITS planes (conj(A) B)",
                    float(np.max(np.abs(C2 - ref.exact_to_float(Ce2)) / b2)), 1.0)
+    # 1-D quaternion vectors (numpy's own vector type): the dense product follows numpy's matmul shapes on this tree.
+    # The documented domain is 2-D ("vectors are matrices with one column"), so a rejection is accepted - a value
+    # that is returned must be the Hamilton product.
+    if n == 1:
+        try:
+            r = u_().quat_matmat(Q(A), Q(B)[:, 0].copy())
+        except Exception:  # noqa: BLE001
+            out.label("1d_right_rejected")
+        else:
+            try:
+                C1 = to_float(r)
+            except Exception as e:  # noqa: BLE001
+                C1 = None
+                out.true("quat_matmat(dense, 1-D vector):returns a quaternion array", False, f"{type(e).__name__}: {e}"[:200])
+            if C1 is not None and out.true("quat_matmat(dense, 1-D vector):shape (m,)", C1.shape == (m, 4), f"{C1.shape}"):
+                out.le("quat_matmat(dense, 1-D vector):C_i=sum_k A_ik*x_k",
+                       float(np.max(np.abs(C1 - Cx[:, 0]) / bound[:, 0])), 1.0)
+                out.label("1d_right_checked")
+    if m == 1:
+        try:
+            r = u_().quat_matmat(Q(A)[0].copy(), Q(B))
+        except Exception:  # noqa: BLE001
+            out.label("1d_left_rejected")
+        else:
+            try:
+                C1 = to_float(r)
+            except Exception as e:  # noqa: BLE001
+                C1 = None
+                out.true("quat_matmat(1-D vector, dense):returns a quaternion array", False, f"{type(e).__name__}: {e}"[:200])
+            if C1 is not None and out.true("quat_matmat(1-D vector, dense):shape (n,)", C1.shape == (n, 4), f"{C1.shape}"):
+                out.le("quat_matmat(1-D vector, dense):C_j=sum_k x_k*B_kj",
+                       float(np.max(np.abs(C1 - Cx[0]) / bound[0])), 1.0)
+                out.label("1d_left_checked")
     names = list(paths)
     for x, y in zip(names, names[1:]):
         if paths[x].shape == paths[y].shape:
